@@ -132,11 +132,73 @@ def tpfpAtoms (pat : List Nat) (G : Nat) (v : Val) : TpFp := leafOfKinds G ((sor
 def tpfpShapes : List (List Nat × Nat) :=
   [([], 0), ([], 2)] ++ (countPatterns 1 ++ countPatterns 2 ++ countPatterns 3).map fun p => (p, 1)
 
-/-- per-run obligation on the generated rows: all shapes present (or the translator gave up: no rows), every tree agrees
-with the skeleton on every consistent valuation -/
+/-! #### relational agreement: what the C04 text leaves open in (a)
+
+The text ranks "by descending confidence" and fixes NO order among equal confidences; it speaks of "labels whose AP is
+defined" (the AP of an empty ranking: undefined or 0, and its `tp_list` / `fp_list` are no running sums over a ranking);
+a result that is neither TP nor FP ("ignored": no threshold for its label) adds nothing to `tp_list`, whether `fp_list`
+counts it is not stated (AP does not read `fp_list`).  The per-run obligation therefore is not "code leaf = model leaf" but
+"the code leaf is ADMITTED by the model's kinds" (`tpfpAdmits`), exactly what the Python oracle `_cmp_ap` /
+`_same_group` of harness/props/c04.py admits.  The check reuses `agree` and its soundness: `relTree rel code model` is
+the tree asking the code's atoms, then the model's, with leaf `rel c m`; it must agree with `.leaf true`. -/
+
+def mapTree {β γ : Type} (f : β → γ) : DTree β → DTree γ
+  | .leaf r => .leaf (f r)
+  | .ite a f' t => .ite a (mapTree f f') (mapTree f t)
+  | .cmp a l e g => .cmp a (mapTree f l) (mapTree f e) (mapTree f g)
+
+def relTree {α β : Type} (rel : α → β → Bool) : DTree α → DTree β → DTree Bool
+  | .leaf c, m => mapTree (rel c) m
+  | .ite a f t, m => .ite a (relTree rel f m) (relTree rel t m)
+  | .cmp a l e g, m => .cmp a (relTree rel l m) (relTree rel e m) (relTree rel g m)
+
+def insertAll {α : Type} (x : α) : List α → List (List α)
+  | [] => [[x]]
+  | y :: ys => (x :: y :: ys) :: (insertAll x ys).map (y :: ·)
+
+/-- all rearrangements of a list, the identity first -/
+def perms {α : Type} : List α → List (List α)
+  | [] => [[]]
+  | x :: xs => (perms xs).flatMap (insertAll x)
+
+/-- the pattern values along the model's ranking (non-increasing) -/
+def rankKeys (pat : List Nat) : List Nat := (sortIdx pat).map (pat.getD · 0)
+
+/-- the rearrangements of the RANK positions that move a result only inside its group of equal confidence -/
+def tiePerms (pat : List Nat) : List (List Nat) :=
+  (perms (List.range pat.length)).filter fun p => p.map ((rankKeys pat).getD · 0) == rankKeys pat
+
+/-- an ignored result may be filed as an FP in the running sums of `fp_list` (each one independently, as the oracle) -/
+def ignFlex : List K → List (List K)
+  | [] => [[]]
+  | k :: ks =>
+    match k with
+    | .ign => (ignFlex ks).flatMap fun r => [.ign :: r, .fp :: r]
+    | _ => (ignFlex ks).map (k :: ·)
+
+/-- the kind lists (in ranking order) the text admits, given the model's: ties in any order, ignored results as ignored or FP -/
+def tpfpVariants (pat : List Nat) (ks : List K) : List (List K) :=
+  (tiePerms pat).flatMap fun p => ignFlex (p.map (ks.getD · .ign))
+
+/-- the code's leaf is admitted by the model's kinds `ks` (ranking order): it returned; for an EMPTY ranking nothing more
+(AP undefined or 0, lists free); else `ap` is defined and the lists are the running sums of one of the admitted variants -/
+def tpfpAdmits (pat : List Nat) (G : Nat) (c : Except String TpFp) (ks : List K) : Bool :=
+  match c with
+  | .error _ => false
+  | .ok leaf => pat.isEmpty || (tpfpVariants pat ks).any fun ks' => decide (leaf = leafOfKinds G ks')
+
+/-- the model's kinds in ranking order, as a tree -/
+def kindsTree (pat : List Nat) : DTree (List K) := kindsSk (sortIdx pat) fun ks => .leaf ks
+
+/-- no two entries of the pattern are equal (no tie among the confidences) -/
+def strictPat (pat : List Nat) : Bool :=
+  (List.range pat.length).all fun i => (List.range pat.length).all fun j => i == j || pat.getD i 0 != pat.getD j 0
+
+/-- per-run obligation on the generated rows: all shapes present (or the translator gave up: no rows), every tree's leaf is
+admitted by the skeleton's kinds on every consistent valuation -/
 def tpfpOk (rows : List (List Nat × Nat × DTree (Except String TpFp))) : Bool :=
   (rows.isEmpty || rows.map (fun r => (r.1, r.2.1)) == tpfpShapes) &&
-  rows.all fun r => agree PVal.empty r.2.2 (tpfpSk r.1 r.2.1)
+  rows.all fun r => agree PVal.empty (relTree (tpfpAdmits r.1 r.2.1) r.2.2 (kindsTree r.1)) (.leaf true)
 
 /-! ### (b) precision / recall, interpolation, area -/
 
@@ -274,8 +336,22 @@ def mapRequired : List MapShape :=
    ⟨3, [2, 1, 0], [0, 1, 2], false⟩, ⟨3, [1, 2, 0], [0, 1, 2], false⟩, ⟨3, [0, 1, 2], [2, 0, 1], false⟩,
    ⟨2, [1, 0], [0, 1], true⟩, ⟨3, [2, 1, 0], [0, 1, 2], true⟩]
 
+def insCall (c : ApCall) : List ApCall → List ApCall
+  | [] => [c]
+  | d :: r => if c.2.1 ≤ d.2.1 then c :: d :: r else d :: insCall c r
+
+/-- `Map.aps` / `Map.aphs` read as a MAPPING target label ↦ `Ap` (the text: "the mean over the labels …", no order of the
+list is stated): the calls listed by target label (stable) -/
+def canonMap (x : MapLeaf) : MapLeaf :=
+  { x with aps := x.aps.foldr insCall [], aphs := x.aphs.foldr insCall [] }
+
+/-- … and every exception is one code (the text names no exception class; the skeleton's only error leaf is "KeyError") -/
+def canonMapE : Except String MapLeaf → Except String MapLeaf
+  | .ok x => .ok (canonMap x)
+  | .error _ => .error "KeyError"
+
 def mapOk (rows : List (MapShape × DTree (Except String MapLeaf))) : Bool :=
   (rows.isEmpty || mapRequired.all fun s => rows.any fun r => r.1 == s) &&
-  rows.all fun r => agree PVal.empty r.2 (mapSk r.1)
+  rows.all fun r => agree PVal.empty (mapTree canonMapE r.2) (mapSk r.1)
 
 end PEval.APDT
